@@ -30,3 +30,9 @@ def cat(parts, empty):
     for p in parts:
         r = r + p
     return r
+
+
+def fmt(template, args):
+    """template % args, also for symbolic arguments (harness code is not lifted)."""
+    from symx import rt
+    return rt.mod(template, args)
